@@ -660,6 +660,6 @@ SUBS = [
         sample_ok=lambda c: len(json.dumps(c)) < 2500),
     Sub("cond-injections", check, strategy=targeted(["case-outputs-disagree", "case-index-out-of-range", "case-built-twice", "cond-exit-unbuilt"], ("cond", "dfg", "function")), nontrivial=nontrivial,
         classes=classes, n_quick=150, n_thorough=800, sample_ok=lambda c: len(json.dumps(c)) < 2500),
-    Sub("call-injections", check, strategy=targeted(["poly-call-no-instantiation", "poly-call-wrong-arg-count", "poly-call-no-type-args", "non-function-called", "function-outputs-differ", "non-dataflow-wire"], ("module",), True),
+    Sub("call-injections", check, strategy=targeted(["poly-call-no-instantiation", "poly-call-wrong-arg-count", "poly-call-no-type-args", "non-function-called", "function-outputs-differ", "non-dataflow-wire", "incomplete-op"], ("module",), True),
         nontrivial=nontrivial, classes=classes, n_quick=150, n_thorough=800, sample_ok=lambda c: len(json.dumps(c)) < 2500),
 ]
